@@ -81,9 +81,7 @@ package encoding
 //@   ensures[gone] !inDom(o.Fields, key)
 //@   ensures[others] forallT(k, int, k != key ==> inDom(o.Fields, k) == old(inDom(o.Fields, k)) && o.Fields[k] == old(o.Fields[k]))
 //@   modifies o.Keys, mapOf(o.Fields), elems(o.Keys)
-//@   loop 0 invariant 0 <= i && i <= mapLen && len(rest) <= len(data)
-//@   loop 0 invariant o.Fields != nil && fresh(o.Fields) && (refOf(o.Keys) == refOf(old(o.Keys)) || fresh(o.Keys))
-//@   loop 0 invariant omInvCBOR(o)
+//@   loop 0 invariant 0 <= i && i <= len(old(o.Keys)) && refOf(o.Keys) == refOf(old(o.Keys)) && sameStart(o.Keys, old(o.Keys)) && cap(o.Keys) == cap(old(o.Keys))
 //@   loop 0 invariant (len(o.Keys) == len(old(o.Keys)) && elems(o.Keys) == old(elems(o.Keys)) && forall(j, 0, i, old(o.Keys[j]) != key)) || (len(o.Keys) + 1 == len(old(o.Keys)) && forall(j, i, len(old(o.Keys)), old(o.Keys)[j] != key))
 //@   loop 0 invariant !inDom(o.Fields, key) && forallT(k, int, k != key ==> inDom(o.Fields, k) == old(inDom(o.Fields, k)) && o.Fields[k] == old(o.Fields[k])) && o.Fields == old(o.Fields)
 
@@ -135,9 +133,7 @@ package encoding
 //@   ensures[gone] !inDom(o.Fields, key)
 //@   ensures[others] forallT(k, string, k != key ==> inDom(o.Fields, k) == old(inDom(o.Fields, k)) && o.Fields[k] == old(o.Fields[k]))
 //@   modifies o.Keys, mapOf(o.Fields), elems(o.Keys)
-//@   loop 0 invariant 0 <= i && i <= mapLen && len(rest) <= len(data)
-//@   loop 0 invariant o.Fields != nil && fresh(o.Fields) && (refOf(o.Keys) == refOf(old(o.Keys)) || fresh(o.Keys))
-//@   loop 0 invariant omInvCBOR(o)
+//@   loop 0 invariant 0 <= i && i <= len(old(o.Keys)) && refOf(o.Keys) == refOf(old(o.Keys)) && sameStart(o.Keys, old(o.Keys)) && cap(o.Keys) == cap(old(o.Keys))
 //@   loop 0 invariant (len(o.Keys) == len(old(o.Keys)) && elems(o.Keys) == old(elems(o.Keys)) && forall(j, 0, i, old(o.Keys[j]) != key)) || (len(o.Keys) + 1 == len(old(o.Keys)) && forall(j, i, len(old(o.Keys)), old(o.Keys)[j] != key))
 //@   loop 0 invariant !inDom(o.Fields, key) && forallT(k, string, k != key ==> inDom(o.Fields, k) == old(inDom(o.Fields, k)) && o.Fields[k] == old(o.Fields[k])) && o.Fields == old(o.Fields)
 
@@ -161,7 +157,9 @@ package encoding
 //@   ensures[empty-input] len(data) == 0 ==> ret != nil
 //@   ensures[not-a-map] len(data) > 0 && (data[0] >> 5) != 5 && (data[0] >> 5) != 6 ==> ret != nil
 //@   modifies o.Fields, o.Keys, elems(o.Keys)
-//@   loop 0 invariant 0 <= i && i <= mapLen && len(rest) <= len(data) && o.Fields != nil && fresh(o.Fields) && omInvCBOR(o) && (refOf(o.Keys) == refOf(old(o.Keys)) || fresh(o.Keys))
+//@   loop 0 invariant 0 <= i && i <= mapLen && len(rest) <= len(data)
+//@   loop 0 invariant o.Fields != nil && fresh(o.Fields) && (refOf(o.Keys) == refOf(old(o.Keys)) || fresh(o.Keys))
+//@   loop 0 invariant omInvCBOR(o)
 //@   loop 0 decreases mapLen - i
 //@   loop 1 invariant 0 <= i && i <= len(data) && i + len(rest) <= len(data) && len(rest) <= len(data)
 //@   loop 1 invariant o.Fields != nil && fresh(o.Fields) && (refOf(o.Keys) == refOf(old(o.Keys)) || fresh(o.Keys))
